@@ -203,8 +203,27 @@ func init() {
 	}
 	// sync.Pool: Get returns nil (callers then allocate); Put drops. A harness may bind its own
 	// nondeterministic stub with //verif:stub.
-	externals["(*sync.Pool).Get"] = func(fr *frame, args []value) value { return iface{} }
-	externals["(*sync.Pool).Put"] = func(fr *frame, args []value) value { return nil }
+	// sync.Pool per its contract: Get returns nil or any previously Put object, un-zeroed. The model
+	// returns the most recently Put object (LIFO), which maximises reuse and therefore exposes
+	// double-Put / use-after-Put defects; the pool is emptied at the start of every path.
+	externals["(*sync.Pool).Get"] = func(fr *frame, args []value) value {
+		p := args[0].(*value)
+		items := poolItems[p]
+		if len(items) == 0 {
+			return iface{}
+		}
+		it := items[len(items)-1]
+		poolItems[p] = items[:len(items)-1]
+		if explorer != nil && explorer.stubsUsed != nil {
+			explorer.stubsUsed["sync.Pool (LIFO model: Get returns the most recently Put object, else nil)"] = true
+		}
+		return it
+	}
+	externals["(*sync.Pool).Put"] = func(fr *frame, args []value) value {
+		p := args[0].(*value)
+		poolItems[p] = append(poolItems[p], args[1])
+		return nil
+	}
 	externals["(*sync.Mutex).Lock"] = func(fr *frame, args []value) value { return nil }
 	externals["(*sync.Mutex).Unlock"] = func(fr *frame, args []value) value { return nil }
 	externals["(*sync.RWMutex).Lock"] = func(fr *frame, args []value) value { return nil }
@@ -229,6 +248,7 @@ func init() {
 }
 
 var onceDone = map[*value]bool{}
+var poolItems = map[*value][]value{}
 
 func init() {
 	// sync/atomic on the sequential interpreter: plain loads and stores
